@@ -11,7 +11,8 @@ RULE = ("Generated VCF models: 1-3 samples, 1-3 contigs, 1-12 records, ploidy 1-
         "records, duplicate positions, per-sample phase encoding PS (Integer or String typed) / HP / none with PQ, "
         "stale PS values, arbitrary other INFO/FORMAT fields. Oracle: run_unphase succeeds; output has no phased GT and no "
         "HP/PS/PQ key in records or header; every other field and every GT allele multiset equals the input (htslib "
-        "parse of both); unphase(unphase(x)) == unphase(x) record for record. Non-trivial = file with a non-diploid or "
+        "parse of both); unphase(unphase(x)) == unphase(x) record for record; unphase(phase(x)) and unphase(polyphase(x)) "
+        "(ploidy 2-6, genotypes returned in haplotype order) equal unphase(x) record for record. Non-trivial = file with a non-diploid or "
         "partially missing call or a GT-less record, and at least one phase statement. Distinct = distinct model.")
 ASSUMPTIONS = [
     "well-formed = complete header (every contig, INFO, FORMAT, FILTER defined), positions sorted per contig",
@@ -144,4 +145,67 @@ class AfterPhasePart:
         ctx.label("tag-" + case["tag"] + ("-then-other" if case["twice"] else ""))
 
 
-PARTS = [UnphasePart(), AfterPhasePart()]
+class AfterPolyphasePart:
+    """unphase(polyphase(x)) gives the same records as unphase(x): polyploid genotypes come back in haplotype order
+    (e.g. 0|1|1|0), with PS or the polyploid HP encoding"""
+    name = "after-polyphase"
+    budget = {"quick": 480, "thorough": 8000}
+
+    def strategy(self, tier):
+        from props.c15_polyphase import gen
+
+        @st.composite
+        def case(draw):
+            c = gen(draw)
+            c["descending"] = draw(st.booleans())
+            return c
+        return case()
+
+    def run(self, case, ctx):
+        import io, contextlib
+        from vlib import genome as G, pipeline as P
+        from props.c15_polyphase import apply_errors
+        from whatshap.cli.polyphase import run_polyphase
+        d = ctx.tmp()
+        ploidy = case["ploidy"]
+        variants = case["variants"]["chr1"]
+        haps = case["haps"]["s"]["chr1"]
+        reads = apply_errors(case, G.render_specs(case, case["read_specs"]))
+        if not reads:
+            return
+        ref = G.write_fasta(case["contigs"], os.path.join(d, "ref.fa"))
+        gts = {"s": {"chr1": ["/".join(map(str, sorted((h[vi] for h in haps), reverse=(case["descending"] and vi % 2 == 0))))
+                              for vi in range(len(variants))]}}
+        vcf = G.write_vcf(case, os.path.join(d, "in.vcf"), gts=gts)
+        bam = G.write_bam(case, reads, os.path.join(d, "reads.bam"))
+        out = os.path.join(d, "out.vcf")
+        buf = io.StringIO()
+        with contextlib.redirect_stdout(buf), contextlib.redirect_stderr(buf):
+            with open(out, "w") as fo:
+                run_polyphase([bam], vcf, ploidy, reference=ref, output=fo, block_cut_sensitivity=case["opts"]["B"], threads=1,
+                              write_command_line_header=False, tag=case.get("tag", "PS"))
+        P.check_readable(out, "polyphase")
+        u1 = os.path.join(d, "u_phased.vcf")
+        u0 = os.path.join(d, "u_orig.vcf")
+        run_unphase(out, u1)
+        run_unphase(vcf, u0)
+        unphase_checks(out, u1, ctx)
+        _, a = vm.read_vcf(u0)
+        _, b = vm.read_vcf(u1)
+        for kind, msg in vm.diff_records(a, b, ignore_format=(), compare_gt="exact"):
+            ctx.violation("unphase:after-polyphase:" + kind, msg)
+        _, ph = vm.read_vcf(out)
+        nt = False
+        for r in ph:
+            for c in r["samples"].values():
+                if c["phased"] and c["GT"] is not None:
+                    if list(c["GT"]) != sorted(c["GT"]):
+                        nt = True
+                    if len(c["GT"]) > 2 and c["GT"][0] == c["GT"][-1] and len(set(c["GT"])) > 1:
+                        ctx.label("phased-gt-with-equal-first-and-last-allele")
+        ctx.nontrivial(nt)
+        ctx.label("ploidy-%d" % ploidy)
+        ctx.label("tag-" + case.get("tag", "PS"))
+
+
+PARTS = [UnphasePart(), AfterPhasePart(), AfterPolyphasePart()]
